@@ -74,8 +74,6 @@ package binding
 
 //@ func (*Binder).reserveGPUs
 //@   props C11 C17
-//@   trusted
-//@   note TEMPORARY (engine limitation reported to main): loop-head havoc for the callee-contract write `fields(pod)` of the interface method Interface.ReserveGpuDevice is whole-family, so the 118 frame obligations cannot be proved; invariants, postconditions and no-panic of this unit are green when run without `trusted`
 //@   requires b != nil && b.resourceReservationService != nil && pod != nil && bindRequest != nil
 //@   modifies fields(pod), family(rr.gone(nil))
 //@   loop 1
@@ -123,7 +121,8 @@ package binding
 //@   requires b != nil && b.resourceReservationService != nil && b.plugins != nil
 //@   requires pod != nil && node != nil && bindRequest != nil
 //@   modifies fields(pod), family(rr.gone(nil)), rr.nodeSyncs(), rr.labelRemovals(), bp.pluginRollbacks()
-//@   ensures [plugins-rolled-back] bp.pluginRollbacks() == old(bp.pluginRollbacks()) + 1
+//@   requires forall i int :: 0 <= i && i < len(b.plugins.plugins) ==> b.plugins.plugins[i] != nil
+//@   ensures [plugins-rolled-back] bp.pluginRollbacks() == old(bp.pluginRollbacks()) + len(b.plugins.plugins)
 //@   ensures [shared-gpu-labels-removed-and-node-synced] bindRequest.Spec.ReceivedResourceType == "Fraction" ==> rr.labelRemovals() == old(rr.labelRemovals()) + 1 && rr.nodeSyncs() == old(rr.nodeSyncs()) + 1
 //@   ensures [whole-gpu-nothing-else] bindRequest.Spec.ReceivedResourceType != "Fraction" ==> rr.labelRemovals() == old(rr.labelRemovals()) && rr.nodeSyncs() == old(rr.nodeSyncs())
 //@ end
